@@ -549,6 +549,14 @@ void HyperedgeImprover::removeZeroLengthEdges(HyperedgeTreeNode *self,
                 {
                     edge->disconnectEdge();
                     delete edge;
+                    if (source->edges.empty())
+                    {
+                        // 'source' was a terminal: the merged node is that
+                        // terminal now and has to keep its attributes.
+                        target->isConnectorSource = source->isConnectorSource;
+                        target->isPinDummyEndpoint = source->isPinDummyEndpoint;
+                        target->finalVertex = source->finalVertex;
+                    }
                     target->spliceEdgesFrom(source);
                     delete source;
                     removeZeroLengthEdges(target, ignored);
